@@ -478,6 +478,26 @@ fn check_scroll(a: &mut Acc, stage: &str, idx: u64, s: &mut Session, fh: u64, to
     true
 }
 
+/// `set_vertical_scroll_offset` sends 0x37 with the offset unchanged, big-endian, whatever scroll
+/// region was defined before.
+fn check_offset(a: &mut Acc, stage: &str, idx: u64, s: &mut Session, off: u16, region: Option<(u16, u16)>, cfg: &DispCfg) -> bool {
+    let rep = s.step(&Op::ScrollOffset(off));
+    let cmds: Vec<&PEv> = rep.log.iter().filter(|e| matches!(e, PEv::Cmd { .. })).collect();
+    let ok = rep.result == CallResult::Ok
+        && cmds.len() == 1
+        && matches!(cmds[0], PEv::Cmd { op: 0x37, params, .. } if params.len() == 2 && params[0] == (off >> 8) as u8 && params[1] == off as u8);
+    if !ok {
+        let mut case = J::obj().with("config", cfg.to_json()).with("offset", off);
+        if let Some((t, b)) = region {
+            case = case.with("region_top", t).with("region_bottom", b);
+        }
+        a.violate(stage, idx, if region.is_some() { "scroll_offset/encoding[after-region]" } else { "scroll_offset/encoding" }, format!("offset {}: result {:?}, trace {:?}", off, rep.result, cmds), case);
+        return false;
+    }
+    a.count("scroll_offsets_checked", 1);
+    true
+}
+
 /// The scroll set-up depends on the framebuffer height only: vary everything else (colour and
 /// refresh order, inversion, a window smaller than the framebuffer, the builder call order).
 fn c16_vary(cfg: &mut DispCfg, h: u64) {
@@ -554,19 +574,32 @@ pub fn c16(args: &Args) -> Acc {
                     }
                 }
             }
-            // offsets: all 65536
-            for off in 0..=65535u16 {
-                let rep = s.step(&Op::ScrollOffset(off));
-                let cmds: Vec<&PEv> = rep.log.iter().filter(|e| matches!(e, PEv::Cmd { .. })).collect();
-                let ok = rep.result == CallResult::Ok
-                    && cmds.len() == 1
-                    && matches!(cmds[0], PEv::Cmd { op: 0x37, params, .. } if params.len() == 2 && params[0] == (off >> 8) as u8 && params[1] == off as u8);
-                if !ok {
-                    a.violate("boundary", idx, "scroll_offset/encoding", format!("offset {}: result {:?}, trace {:?}", off, rep.result, cmds), J::obj().with("config", cfg.to_json()).with("offset", off));
-                    return;
+            // offsets: all 65536, under the scroll definition left by the sweep above and under
+            // definitions that fit (non-empty scroll area, empty scroll area, no fixed areas): the
+            // offset is sent unchanged whatever region was set before
+            let fhc = fh.min(65535) as u16;
+            let regions: [Option<(u16, u16)>; 5] = [None, Some((fhc / 4, fhc / 4)), Some((0, 0)), Some((1, fhc.saturating_sub(2))), Some((fhc, 0))];
+            for (ri, region) in regions.iter().enumerate() {
+                if let Some((t, b)) = region {
+                    if !check_scroll(a, "boundary", idx, &mut s, fh, *t, *b, &cfg) {
+                        return;
+                    }
                 }
+                // the full sweep under the first two states, every 7th offset plus the edges of the scroll area under the others
+                for off in 0..=65535u16 {
+                    if ri >= 2 {
+                        let (t, b) = region.unwrap();
+                        let near = |x: u64| (off as u64).abs_diff(x) <= 3;
+                        if !(off % 7 == (idx % 7) as u16 || near(0) || near(t as u64) || near(fh.saturating_sub(b as u64)) || near(fh) || near(65535)) {
+                            continue;
+                        }
+                    }
+                    if !check_offset(a, "boundary", idx, &mut s, off, *region, &cfg) {
+                        return;
+                    }
+                }
+                a.seen("offset_sweeps_after_region", match region { None => "exceeding".to_string(), Some((t, b)) => format!("top {} bottom {} of {}", t, b, fh) });
             }
-            a.count("scroll_offsets_checked", 65536);
             if idx % 8 == 0 {
                 a.sample(J::obj().with("config", cfg.to_json()).with("boundary_values", vals.len()).with("offsets", 65536));
             }
@@ -637,6 +670,18 @@ pub fn c16(args: &Args) -> Acc {
                 a.case_hash((m.ord() << 40) | (t as u64) << 20 | b as u64, true);
                 if !check_scroll(a, "random", idx, &mut s, fh, t, b, &cfg) {
                     return;
+                }
+                // an offset right after the definition: anywhere, or at the edges of the scroll area just defined
+                if rng.below(2) == 0 {
+                    let off = match rng.below(4) {
+                        0 => rng.next() as u16,
+                        1 => (t as i64 + rng.range(-2, 2)).clamp(0, 65535) as u16,
+                        2 => (fh as i64 - b as i64 + rng.range(-2, 2)).clamp(0, 65535) as u16,
+                        _ => (fh as i64 + rng.range(-2, 300)).clamp(0, 65535) as u16,
+                    };
+                    if !check_offset(a, "random", idx, &mut s, off, Some((t, b)), &cfg) {
+                        return;
+                    }
                 }
             }
         });
